@@ -300,6 +300,8 @@ def ref_apply(
         may_refuse = sql and (val.osort or other.osort)
         if fixed_common is not None and not (set(fixed_common) <= lhs.cols and set(fixed_common) <= rhs.cols):
             errs.add("ColumnError")  # explicitly requested common columns missing from an operand
+        if fixed_common is not None and not all(A.is_key(c) for c in fixed_common):
+            errs.add("ColumnError")  # join columns are key columns (C14); a non-key column cannot be requested
         if errs and may_refuse:
             errs.add("RelationalAlgebraError")  # permitted, not required
         if errs:
